@@ -114,7 +114,7 @@ def discharge(F, site):
 
 def run(F, tier, res):
     res.assumptions += ['Rust `regex` and Python `re` agree on group structure', 'std / dependency functions do not panic on the values they are given (not analysed)']
-    res.not_decided += ['hangs / termination, allocation size, str char-boundary slicing in general, slice indexing in general, arithmetic other than subtraction',
+    res.not_decided += ['hangs / termination, allocation size, str char-boundary slicing in general, indexing inside the alignment kernels (align.rs, edits.rs: DP table indices), arithmetic other than subtraction',
                         'the CSI-sequence + non-ASCII text panic and the multi-byte combined-diff prefix panic named in the property text (char-boundary slicing: runtime values)']
     delta = [p for p in F.fn_bodies if p == 'delta::delta']
     if not delta:
@@ -309,6 +309,149 @@ def run(F, tier, res):
                 res.violate('P5', key, 'a string is sliced at a computed position that is neither a search/match position nor compared with the string\'s length: '
                             'an out-of-range (or non-boundary) index panics', where=F.span_of_call(c))
     res.rule('C03.P5', n5, 30, 'str/String slicing sites with range bounds on the input path: discharged by pattern, hand-proved table, or reported', discharged=ok5, samples=samples5[:8])
+    # ---------- P6: Vec / slice indexing on the input path (outside the alignment kernels)
+    table6 = _load_table('c03_p6_handproved.json')
+    n6 = ok6 = 0
+    samples6 = []
+    nonempty_consumers = ('::initialize_hunk', '::write_line_of_code_with_optional_path_and_line_number')
+
+    def _short(r):
+        if r[0] == 'param':
+            return 'param%d.%s' % (r[1], '.'.join(r[2]))
+        if r[0] == 'local':
+            return 'local.' + '.'.join(r[2])
+        if r[0] == 'call':
+            return r[1].split('::')[-1] + '()'
+        if r[0] == 'const':
+            return 'const:' + str(r[1])[:24]
+        if r[0] == 'binop':
+            return 'binop:' + r[1].replace('WithOverflow', '')
+        if r[0] == 'agg':
+            return 'agg:' + str(r[1][0])
+        return r[0]
+
+    def _sig(p, o):
+        return ','.join(sorted({_short(r) for r in F.trace(p, o)}))
+
+    def _len_guard(p, at_bb, k, container_roots):
+        """dominating comparison len(container) > k (k constant)"""
+        for (swb, op, arms, other) in Ru.switches(F, p):
+            rs = F.trace(p, op)
+            if not any(x[0] == 'call' and x[1].endswith(('::len', '::is_empty')) for x in rs):
+                continue
+            tt, ft = Ru.bool_edges(arms, other)
+            if Ru.negations(F, p, op) % 2 == 1:
+                tt, ft = ft, tt
+            if any(x[0] == 'call' and x[1].endswith('::is_empty') for x in rs):
+                if k == 0 and ft is not None and (Ru.edge_dominates(F, p, swb, ft, at_bb) or ft == at_bb):
+                    return True
+                continue
+            from .c20 import _find_binop_rvalue
+            rv = _find_binop_rvalue(F, p, op)
+            if rv is None:
+                continue
+            len_left = any(x[0] == 'call' and x[1].endswith('::len') for x in F.trace(p, rv[2]))
+            cs = [v[1] for v in F.operand_literals(p, rv[3] if len_left else rv[2]) if v[0] == 'int']
+            if not cs:
+                continue
+            cst = cs[0]
+            opn = rv[1] if len_left else {'Gt': 'Lt', 'Ge': 'Le', 'Lt': 'Gt', 'Le': 'Ge', 'Eq': 'Eq', 'Ne': 'Ne'}.get(rv[1])
+            good = []
+            if opn == 'Gt' and cst >= k:
+                good = [tt]
+            elif opn == 'Ge' and cst >= k + 1:
+                good = [tt]
+            elif opn == 'Le' and cst >= k:
+                good = [ft]
+            elif opn == 'Lt' and cst >= k + 1:
+                good = [ft]
+            elif opn == 'Eq' and cst >= k + 1:
+                good = [tt]
+            elif opn == 'Ne' and cst >= k + 1:
+                good = [ft]
+            if any(e is not None and (Ru.edge_dominates(F, p, swb, e, at_bb) or e == at_bb) for e in good):
+                return True
+        return False
+
+    for p in sorted(render):
+        if p not in F.fn_bodies or p.startswith(('align::', 'edits::')):
+            continue
+        mir = F.bodies[p]['mir']
+        for i, b in enumerate(F.blocks(p)):
+            if b['cleanup']:
+                continue
+            t = b['t']
+            site = None
+            if t[0] == 'assert' and 'BoundsCheck' in t[1]:
+                # the Len / index operands are in the assert message; find the index operand: `index: copy _N`
+                import re as _re
+                m = _re.search(r'index: (?:copy|move) _(\d+)', t[1])
+                ml = _re.search(r'len: const (\d+)_usize', t[1])
+                idx_op = {'copy': {'l': int(m.group(1)), 'p': []}} if m else None
+                # the container: the place indexed in the next block is not needed for the key; use the Len rvalue's place
+                cont_sig = ''
+                mlv = _re.search(r'len: (?:copy|move) _(\d+)', t[1])
+                if mlv:
+                    cont_sig = _sig(p, {'copy': {'l': int(mlv.group(1)), 'p': []}})
+                site = ('slice', idx_op, int(ml.group(1)) if ml else None, cont_sig, t[5].get('at'))
+            elif t[0] == 'call':
+                c = callee_of(t[1])
+                full = callee_full(t[1])
+                head = full.split(' as ')[0]
+                if (c.endswith('::index') or c.endswith('::index_mut')) and (head.startswith('<std::vec::Vec<') or head.startswith('<[')):
+                    site = ('vec', t[1]['args'][1], None, _sig(p, t[1]['args'][0]), F.span_of_call(t[1]))
+                    cont_op = t[1]['args'][0]
+            if not site:
+                continue
+            kind, idx_op, const_len, cont_sig, where = site
+            n6 += 1
+            idx_sig = _sig(p, idx_op) if idx_op else '?'
+            key = 'fn=%s;index=[%s] of [%s]' % (p, idx_sig, cont_sig)
+            lits = [v[1] for v in F.operand_literals(p, idx_op) if v[0] == 'int'] if idx_op else []
+            roots = F.trace(p, idx_op) if idx_op else []
+            computed = any(r[0] in ('param', 'call', 'binop', 'local') for r in roots)
+            why = None
+            if const_len is not None and lits and not computed and max(lits) < const_len:
+                why = 'constant index into a fixed-size array'
+            elif const_len is not None and any(r[0] in ('discr',) or (r[0] == 'other') for r in roots) and not any(r[0] == 'call' for r in roots):
+                why = 'fixed-size array indexed by an enum discriminant'
+            elif lits and not computed and kind == 'vec' and any(r[0] == 'call' and ('into_vec' in r[1] or 'from_elem' in r[1]) for r in F.trace(p, cont_op)):
+                why = 'constant index into a vec![..] literal built in the same function'
+            elif lits and not computed and _len_guard(p, i, max(lits), None):
+                why = 'constant index under a dominating length test'
+            elif any(r[0] == 'binop' and r[1].startswith('Rem') for r in roots) and any(r[0] == 'call' and r[1].endswith('::len') for r in roots):
+                why = 'index reduced modulo the length (an empty container fails the remainder, not the index: palette non-empty is a stated assumption)'
+            elif p.endswith(nonempty_consumers) and ((lits and max(lits) == 0 and not computed) or any(r[0] == 'call' and r[1].endswith('::len') for r in roots)):
+                why = 'first / last element of the coordinate slice, non-empty by rule NONEMPTY'
+            if not why and kind == 'vec' and 'RangeTo<' in full and any(r[0] == 'binop' and r[1].startswith('Div') for r in roots) \
+                    and any(r[0] == 'call' and r[1].endswith('::len') for r in roots) and not any(r[0] == 'binop' and r[1].startswith(('Add', 'Mul')) for r in roots):
+                why = '[..len()/k]: a quotient of the length never exceeds it'
+            if why:
+                ok6 += 1
+                samples6.append('%s: %s' % (key, why))
+            elif key in table6:
+                ent = table6[key]
+                if isinstance(ent, dict) and ent.get('requires_guard'):
+                    suf = ent['requires_guard']
+
+                    def _has(rs, suf=suf, p=p):
+                        for r in rs:
+                            if r[0] == 'call' and r[1].endswith(suf):
+                                return True
+                            if r[0] == 'call':
+                                for a in r[4]['args']:
+                                    if any(x[0] == 'call' and x[1].endswith(suf) for x in F.trace(p, a, deep=True)):
+                                        return True
+                        return False
+                    if not (Ru.guarded_by(F, p, i, _has) or Ru.guarded_by(F, p, i, _has, want_true=False)):
+                        res.violate('P6', key + ';guard', 'the recorded argument for this index site relies on a dominating `%s` test that is no longer there' % suf, where=where)
+                        continue
+                ok6 += 1
+                samples6.append('%s: hand-proved: %s' % (key, ent['reason'] if isinstance(ent, dict) else ent))
+            else:
+                res.violate('P6', key, 'a vector / slice is indexed at a position that no dominating length test, modulo, literal size or recorded argument bounds: '
+                            'an out-of-range index panics', where=where)
+    res.rule('C03.P6', n6, 12, 'Vec / slice index sites on the input path outside align.rs / edits.rs: discharged by pattern, hand-proved table, or reported', discharged=ok6, samples=samples6[:10])
     # ---------- NONEMPTY: the coordinate list of a parsed hunk header is never empty (it is indexed at [0] and [len-1] downstream)
     nn = okn = 0
     consumers = [q for q in F.fn_bodies if q.endswith('::initialize_hunk') or q.endswith('::write_line_of_code_with_optional_path_and_line_number')]
